@@ -19,6 +19,8 @@ func main() {
 		cmdVerify(os.Args[2:])
 	case "check":
 		cmdCheck(os.Args[2:])
+	case "mapranges":
+		cmdMapRanges(os.Args[2:])
 	case "sweep":
 		cmdSweep(os.Args[2:])
 	default:
